@@ -182,6 +182,65 @@ def run(tier):
             if len(samples) < 4 and n_cases % 37 == 1:
                 samples.append(det)
 
+    # ---------------- planar bonds: X(Y)C=C(Z)W templates, also strained angles ----------------
+    import math
+    n_planar = 0
+    pcs, pres = cases("PlanarBond", 1 if tier == "thorough" else 6)
+    states += pres.distinct
+    gen += pres.generated
+    r_cov = geom.radii()
+    for c in pcs:
+        if c["mirror"]:
+            continue          # achiral: the reflected figure is the same case
+        T = c["atoms"]        # T[k-1] = identifier on figure position k; positions 3, 4 are the bond atoms
+        spell = {(tuple(s_[0]), s_[1]) for s_ in c["spellings"]}
+        for theta in ((120.0,) if tier == "quick" and n_planar % 3 else (112.0, 120.0, 128.0, 140.0, 150.0)):
+            strained = theta > 130
+            sub_els = [1, 9, 1, 9] if strained or rnd.random() < 0.3 else rnd.sample([1, 9, 17, 35], 4)
+            el_of = {T[2]: 6, T[3]: 6, T[0]: sub_els[0], T[1]: sub_els[1], T[4]: sub_els[2], T[5]: sub_els[3]}
+            if el_of[T[0]] == el_of[T[1]] or el_of[T[4]] == el_of[T[5]]:
+                continue
+            dcc = 1.34
+            pos = {T[2]: np.array([-dcc / 2, 0, 0]), T[3]: np.array([dcc / 2, 0, 0])}
+            th = math.radians(theta)
+            for k, (end, sx, sy) in {0: (T[2], -1, 1), 1: (T[2], -1, -1), 4: (T[3], 1, 1), 5: (T[3], 1, -1)}.items():
+                L = r_cov[6] + r_cov[el_of[T[k]]]
+                # angle theta between the C=C bond and the C-X bond
+                pos[T[k]] = pos[end] + L * np.array([-sx * math.cos(th), sy * math.sin(th), 0.0])
+            seq = list(pos)
+            rnd.shuffle(seq)
+            arr = np.array([pos[i] for i in seq]) + np.array([[rnd.uniform(-0.01, 0.01) for _ in range(3)] for _ in seq])
+            arr = geom.rigid(arr, rnd)
+            el_seq = [el_of[i] for i in seq]
+            okg, why = geom.general_position(el_seq, arr)
+            if not okg:
+                n_skip += 1
+                continue
+            index_of = {i: k for k, i in enumerate(seq)}
+            det = {"case": {"cls": "PlanarBond", "atoms": T}, "theta": theta, "elements": el_seq, "coords": arr.tolist(), "index_of": index_of}
+            try:
+                g = SMG.from_geometry(Geometry(el_seq, arr))
+            except Exception as e:
+                rep.violation(f"C07|from_geometry|PlanarBond|raises:{type(e).__name__}", "from_geometry raised on an alkene template", det)
+                continue
+            idm2 = IdMap({i: index_of[i] for i in seq})
+            pj, bad = project(g, idm2)
+            want_bonds = sorted(sorted(p_) for p_ in ([T[2], T[3]], [T[0], T[2]], [T[1], T[2]], [T[4], T[3]], [T[5], T[3]]))
+            if sorted([b[0], b[1]] for b in pj["bonds"]) != want_bonds:
+                n_skip += 1
+                continue
+            n_planar += 1
+            n_whole += 1
+            bst = {(b[0], b[1]): b[2] for b in pj["bst"]}
+            key = tuple(sorted((T[2], T[3])))
+            d = bst.get(key)
+            det["observed"] = pj["bst"]
+            if d is None or len(bst) != 1 or pj["ast"]:
+                rep.violation(f"C07|from_geometry|PlanarBond|descriptor-set|strained={strained}",
+                              "an alkene template is not perceived as exactly one planar bond", det)
+            elif d[0] != "PlanarBond" or (tuple(d[1]), d[2]) not in spell:
+                rep.violation(f"C07|from_geometry|PlanarBond|wrong-arrangement|strained={strained}",
+                              f"cis/trans of the perceived planar bond is wrong (C=C-X angle {theta})", det)
     # ---------------- metamorphic part on the XYZ corpus ----------------
     recs = []
     n_meta_skip = 0
